@@ -323,14 +323,14 @@ private:
         //Skip scanlines if necessary.
         for( y_t y = 0; y < this->_settings._top_left.y; ++y )
         {
-            this->_io_dev.read( reinterpret_cast< byte_t* >( rh.data() )
+            this->_io_dev.read_all( reinterpret_cast< byte_t* >( rh.data() )
                         , this->_scanline_length
                         );
         }
 
         for( y_t y = 0; y < view.height(); ++y )
         {
-            this->_io_dev.read( reinterpret_cast< byte_t* >( rh.data() )
+            this->_io_dev.read_all( reinterpret_cast< byte_t* >( rh.data() )
                         , this->_scanline_length
                         );
 
